@@ -1024,7 +1024,14 @@ input `d` (it has just returned the `Open` token), the schedule fault-free, the 
 least three bytes.  If reading tokens with the reference lexer and counting opens and closes — over skip-safe tokens:
 quoted scalars may contain anything (braces, escapes, `#`), comments may contain anything, unquoted scalars and `@[…]`
 contain no `{ } " #` — reaches the matching close at offset `q`, then `skip_container` succeeds and leaves the reader
-related to `d.drop q`, i.e. at exactly the token that follows the matching close, under every read schedule. -/
+related to `d.drop q`, i.e. at exactly the token that follows the matching close, under every read schedule.
+
+EXCLUSION (`skipSafeTok`, built into `balancedSkip`): the skipped tokens contain no unquoted scalar with a `"` inside and no
+`@[…]` expression with `{ } " #` inside.  This is exactly the complement of two RECORDED FINDINGS on valid inputs
+(`C09_skipSafe_or_known`, Proofs/TextSkipDoc.lean): `skip-quote-inside-unquoted` (`a={ b"c } d`: `skip_container` returns
+`Err(Eof)`, `C09_known_quote_in_unquoted_breaks`) and `skip-brace-inside-interpolation` (`a={ @[}] } d`: `skip_container`
+returns `Ok` inside the scalar, `C09_known_interpolation_brace_breaks`); on those shapes the skip does NOT land where reading
+tokens lands, on the model and on the real code alike. -/
 theorem C09_text_skip (r : Reader) (pos : Nat) (bom : Bom) (d : Bytes) (n q fuel : Nat)
     (hrel : Rel r pos bom d) (hnf : NoFaults r.src.sched) (hcap : r.cap = 0 ∨ 3 ≤ r.cap)
     (hfuel : r.src.rest.length + 1 ≤ fuel)
@@ -1310,7 +1317,9 @@ LF, CR, `;`) lie between the scalar just read and a `{` (`skipUScan d 0 = open_ 
 Then — under every fault-free schedule, slice reader or buffer ≥ 3 — the reader lands exactly after the close that
 token counting finds (`balancedSkip` on the bytes after the `{`).  In every other case nothing but blanks is consumed:
 in particular a `#` comment between the scalar and the `{` stops it (the recorded finding `skipu-comment-before-brace`),
-and the container is then NOT skipped. -/
+and the container is then NOT skipped.  Behind the `{` it is `skip_container`, with the same exclusion (`skipSafeTok` =
+the complement of the recorded findings `skip-quote-inside-unquoted` / `skip-brace-inside-interpolation`, see
+`C09_text_skip`). -/
 theorem C09_text_skipu (r : Reader) (pos : Nat) (bom : Bom) (d : Bytes) (n fuel : Nat)
     (hrel : Rel r pos bom d) (hnf : NoFaults r.src.sched) (hcap : r.cap = 0 ∨ 3 ≤ r.cap)
     (hfuel : r.src.rest.length + 1 ≤ fuel) :
